@@ -53,6 +53,19 @@ func genC11(g *Gen, tier string, idx int) *wire.Scenario {
 	env.PanicCmd = true
 	if g.P(25) {
 		env.Inputrc = append(env.Inputrc, "set prompt-transient on")
+		if g.P(60) {
+			env.TransientPrompt = Pick(g, []string{"% ", ">> "})
+		}
+	}
+	if idx%6 == 2 {
+		// the editing mode shown in the prompt, with the usual idiom of a cursor shape per mode
+		env.Inputrc = append(env.Inputrc, "set show-mode-in-prompt on", "set vi-ins-mode-string \"\\1\\e[6 q\\2\"", "set vi-cmd-mode-string \"\\1\\e[2 q\\2\"",
+			"set emacs-mode-string \"\\1\\e[5 q\\2@\"")
+		if g.P(60) {
+			// ... and a transient prompt, printed when the line is accepted
+			env.Inputrc = append(env.Inputrc, "set prompt-transient on")
+			env.TransientPrompt = Pick(g, []string{"% ", ">> "})
+		}
 	}
 	env.Binds = append([]wire.BindSpec(nil), g.Cat.Extra...)
 	km := "emacs"
